@@ -221,6 +221,12 @@ def _parse_diagnostics(ur, unit, stderr, gen, gen_path, segs, fnprops, seen, sin
             props = pseg["props"].split(",")
         else:
             props = [x for x in ur.log["props"] if x]
+        # a failed loop invariant is ASSUMED at every later use of the loop (next iterations, code after the loop), so every clause of
+        # this function behind it -- whatever its own label -- is proved only under a now-false fact: the failure is reported under the
+        # invariant's own label AND under every property the function serves (`props=` of the `//@@ fn` line).  (For failed spliced
+        # assertions the unmasking pass below finds the clauses behind them precisely; an invariant cannot be dropped that way.)
+        if ob["kind"] in ("inv-entry", "inv-step", "inv") and f is not None and f["props"]:
+            props = list(dict.fromkeys(list(props) + [x for x in f["props"].split(",") if x]))
         ob["props"] = props
         if ob["name"] in seen:
             if ob.get("exits"):
@@ -422,6 +428,10 @@ def decide(prop, tier, seed):
     known = load_known()
     kf = [k for k in known["findings"] if k["property"] == prop]
     kf_obl = {o: k for k in kf for o in k["obligations"]}
+    # an obligation registered under ANOTHER property's finding stays a known finding when it is (also) attributed to this property
+    for k in known["findings"]:
+        for o in k["obligations"]:
+            kf_obl.setdefault(o, k)
     results = []
     nthreads = max(2, 16 // max(1, len(units)))
     with cf.ThreadPoolExecutor(max_workers=8) as ex:
